@@ -618,6 +618,18 @@ func genBodies(sc *rlScenario, rng *rand.Rand) [][]byte {
 	for i := 0; i < sc.NMsgs; i++ {
 		var b []byte
 		switch sc.Filter {
+		case "requirevalue":
+			// the value asked for is "a/b": three spellings of that JSON string, and one that is something else
+			switch i % 4 {
+			case 0:
+				b = []byte(fmt.Sprintf(`{"k":"a/b","n":%d,"pad":"%x"}`, i, rng.Int63()))
+			case 1:
+				b = []byte(fmt.Sprintf(`{"k":"a\/b","n":%d,"pad":"%x"}`, i, rng.Int63()))
+			case 2:
+				b = []byte(fmt.Sprintf(`{"n":%d,"k":"\u0061/b","pad":"%x"}`, i, rng.Int63()))
+			default:
+				b = []byte(fmt.Sprintf(`{"k":"zzz","n":%d,"pad":"%x"}`, i, rng.Int63()))
+			}
 		case "require", "whitelist":
 			switch i % 3 {
 			case 0:
@@ -766,6 +778,8 @@ func runScenario(job *rlJob, sc rlScenario, src *nsqd.NSQD) rlResult {
 		}
 	} else {
 		switch sc.Filter {
+		case "requirevalue":
+			argv = append(argv, "-require-json-field", "k", "-require-json-value", "a/b")
 		case "require":
 			argv = append(argv, "-require-json-field", "k")
 		case "whitelist":
@@ -912,6 +926,14 @@ func runScenario(job *rlJob, sc rlScenario, src *nsqd.NSQD) rlResult {
 			}
 			if !filter && len(s.accSet[m]) == 0 {
 				res.Violations = append(res.Violations, fmt.Sprintf("AtLeastOnce: everything settled but message %d never arrived", m))
+			}
+		}
+	}
+	// a filter was requested: what satisfies it still arrives at least once (the value may be spelt with JSON escapes)
+	if sc.Filter == "requirevalue" && res.Quiescence != "none" {
+		for m := 1; m <= K; m++ {
+			if (m-1)%4 != 3 && len(s.accSet[m]) == 0 {
+				res.Violations = append(res.Violations, fmt.Sprintf("AtLeastOnce: --require-json-field k --require-json-value a/b: message %d, whose field k is the JSON string \"a/b\" (spelling %d of 3), was finished and never arrived", m, (m-1)%4))
 			}
 		}
 	}
